@@ -226,7 +226,7 @@ def run(ctx):
         for step in range(n_ops):
             before = snapshot(vm)
             op = str(rng.choice(["set", "set", "set_all_dict", "set_all_list", "roundtrip", "refresh", "rp2xy", "xy2rp", "rp2xy_all", "xy2rp_all",
-                                 "std_polar", "std_polar_all", "standard_complex", "trans_params", "mask", "temp", "fix", "unfix", "rename"]))
+                                 "std_polar", "std_polar_all", "standard_complex", "trans_params", "mask", "temp", "fix", "unfix", "rename", "set_value_index"]))
             assigned = set()  # names explicitly assigned by this op
             switched = set()  # complex names whose coordinates may legitimately be re-expressed
             free_may_change = False
@@ -325,6 +325,21 @@ def run(ctx):
                     else:
                         vm.set_fix(nm)
                         desc += [nm]
+                elif op == "set_value_index":
+                    # assignment to ONE element of the shaped complex Variable (Variable.set_value(value, index=[k]))
+                    if shaped is None:
+                        continue
+                    k_el = int(rng.integers(0, shaped.shape[0]))
+                    el = "g_ls_%d" % k_el
+                    if el + "r" not in vm.trainable_vars or comp_tied_or_bounded(el):
+                        continue
+                    val2 = [float(rng.uniform(0.2, 2.0)), float(rng.uniform(-3, 3))]
+                    shaped.set_value(val2, index=[k_el])
+                    assigned.update([el + "r", el + "i"])
+                    desc += [el, val2]
+                    got2 = [float(vm.get(el + "r", val_in_fit=False)), float(vm.get(el + "i", val_in_fit=False))]
+                    ctx.check("model: fixed parameters change only when assigned", got2 == val2, lambda: {"op": desc, "read_back": got2, "history": log[-6:]},
+                              mechanism="Variable.set_value(value, index) does not store the value in the addressed element")
                 elif op == "unfix":
                     cand = [nm for nm in vm.variables if nm not in vm.trainable_vars and not any(nm in g for g in vm.same_list)]
                     if not cand:
